@@ -13,7 +13,9 @@ import (
 	"errors"
 	"fmt"
 	"math/rand"
+	"os"
 	"sort"
+	"strconv"
 	"strings"
 	"sync"
 	"time"
@@ -471,7 +473,13 @@ func (r *c09Run) dial(ctx context.Context) (*mqtt.BaseClient, error) {
 	i := r.nDial
 	r.nDial++
 	r.dialT = append(r.dialT, now)
-	r.log = append(r.log, c09Ev{Kind: "dial"})
+	// the Dialer honours its context, as net.Dialer based ones do: a finished context fails the dial
+	dead := ctx.Err() != nil
+	if dead {
+		r.log = append(r.log, c09Ev{Kind: "dial-dead"})
+	} else {
+		r.log = append(r.log, c09Ev{Kind: "dial"})
+	}
 	var last *c09Cli
 	if len(r.clis) > 0 {
 		last = r.clis[len(r.clis)-1]
@@ -482,6 +490,10 @@ func (r *c09Run) dial(ctx context.Context) (*mqtt.BaseClient, error) {
 		// more dials than the script foresees: end the scenario
 		go r.landDisconnect()
 		return nil, errC09End
+	}
+	if dead {
+		r.failurePoint(i)
+		return nil, ctx.Err()
 	}
 	if r.lands(s.Cancel, i, c09PDial) {
 		r.doCancel()
@@ -498,6 +510,11 @@ func (r *c09Run) dial(ctx context.Context) (*mqtt.BaseClient, error) {
 		}
 	}
 	o := s.Script[i]
+	if err := ctx.Err(); err != nil {
+		// the context ended while the dial was in progress
+		r.failurePoint(i)
+		return nil, err
+	}
 	if !o.dialOK() {
 		r.failurePoint(i)
 		return nil, errC09Dial
@@ -596,6 +613,14 @@ type c09Obs struct {
 	notes        []string
 	hung         bool
 }
+
+var c09StressSpin = func() int {
+	if v, err := strconv.Atoi(os.Getenv("C09_STRESS_SPIN")); err == nil && v > 0 {
+		return v
+	}
+	return 4000
+}()
+var c09Sink int
 
 const c09Timeout = 400 * time.Millisecond // WithTimeout when the script needs CONNACK / PINGRESP timeouts
 const c09Ping = 20 * time.Millisecond
@@ -719,6 +744,8 @@ func (o *c09Obs) coq() string {
 		switch e.Kind {
 		case "dial":
 			ev = append(ev, "ODial")
+		case "dial-dead":
+			ev = append(ev, "ODialDead")
 		case "open":
 			ev = append(ev, fmt.Sprintf("OOpen %d", e.K))
 		case "pkt":
@@ -862,6 +889,9 @@ func c09Stopped(script []c09Out, refusedCode *int) []*c09Scn {
 			// after the first success a cancellation is ignored: the loop goes on; stop it one iteration later
 			out = append(out, &c09Scn{Script: append(append([]c09Out{}, sc...), c09Out{Kind: c09DialErr}),
 				Cancel: &c09Stop{n, ph}, Disc: &c09Stop{n + 1, c09PDial}})
+		case ph == c09PDial && sc[n].dialOK():
+			// the Dialer honours its context: a dial during which the context is cancelled fails
+			// (generated with the outcome "dial error")
 		default:
 			out = append(out, &c09Scn{Script: sc, Cancel: &c09Stop{n, ph}, Post: true})
 			if early && noTimeoutOK {
@@ -901,8 +931,24 @@ func c09Generate(tier string, seed int64) (serial []*c09Scn, par []*c09Scn) {
 			Disc: &c09Stop{7, c09PDial}, Base: 20 * ms, Max: 640 * ms, UB: true, Preset: 2},
 	)
 	code := int(seed)
+	eligible := 0
 	add := func(ss []*c09Scn) {
 		for _, s := range ss {
+			if s.Cancel == nil {
+				// the usual "defer cancel()": the context given to Connect ends right after Connect has
+				// returned (first success), the script goes on with losses and redials
+				for j, o := range s.Script[:len(s.Script)-1] {
+					if o.connected() {
+						if o.Kind != c09EndGraceful {
+							eligible++
+							if eligible%2 == 0 {
+								s.Cancel = &c09Stop{j, c09PConnected}
+							}
+						}
+						break
+					}
+				}
+			}
 			if s.Base == 0 {
 				c09Timing(s)
 			}
@@ -1016,6 +1062,20 @@ func runC09(cfg *runCfg) error {
 	if cfg.tier == "thorough" {
 		workers = 256
 	}
+	// stress family, concurrently with the scenarios
+	stressBudget, stressClients := 2500*time.Millisecond, 2
+	if cfg.tier == "thorough" {
+		stressBudget, stressClients = 20*time.Second, 4
+	}
+	stressRes := make([]c09StressRes, stressClients)
+	var swg sync.WaitGroup
+	for i := 0; i < stressClients; i++ {
+		swg.Add(1)
+		go func(i int) {
+			defer swg.Done()
+			stressRes[i] = c09Stress(stressBudget, i%2 == 1)
+		}(i)
+	}
 	out := make([]res, len(par))
 	var wg sync.WaitGroup
 	idx := make(chan int)
@@ -1033,7 +1093,10 @@ func runC09(cfg *runCfg) error {
 	}
 	close(idx)
 	wg.Wait()
+	swg.Wait()
 	results = append(results, out...)
+	var stressCases []string
+	stressCycles := 0
 
 	cf := newCasesFile("C09", "Codec", "Reconnect", "CheckC09")
 	m := &meta{Property: "C09", Distribution: map[string]interface{}{}, Families: map[string][]interface{}{}}
@@ -1089,7 +1152,7 @@ func runC09(cfg *runCfg) error {
 		if len(o.notes) > 0 {
 			d["notes"] = o.notes
 		}
-		for _, fam := range []string{"trace", "backoff", "one_transport", "connect", "stop", "waitub"} {
+		for _, fam := range []string{"trace", "backoff", "one_transport", "connect", "stop", "dialctx", "waitub"} {
 			m.Families[fam] = append(m.Families[fam], d)
 		}
 		for _, x := range s.Script {
@@ -1125,11 +1188,22 @@ func runC09(cfg *runCfg) error {
 			m.Samples = append(m.Samples, d)
 		}
 	}
+	for _, sr := range stressRes {
+		stressCases = append(stressCases, fmt.Sprintf("(%d%%nat, %s)", sr.cycles, cBool(sr.exited)))
+		stressCycles += sr.cycles
+		m.Families["redial_stress"] = append(m.Families["redial_stress"], map[string]interface{}{
+			"what":             "accept every connection, then end it unexpectedly (EOF or malformed packet), back-off 1us/10us; the client must redial after every end",
+			"cycles_completed": sr.cycles, "stopped_redialling_by_itself": sr.exited, "notes": sr.notes})
+	}
+	m.Distribution["stress_accept_then_drop_cycles"] = stressCycles
 	cf.def("cases", "list c09_case", cList(cases))
 	cf.result("V_backoff", "c09_backoff_violations cases")
 	cf.result("V_one_transport", "c09_one_transport_violations cases")
 	cf.result("V_connect", "c09_connect_violations cases")
 	cf.result("V_stop", "c09_stop_violations cases")
+	cf.result("V_dialctx", "c09_dialctx_violations cases")
+	cf.def("stress_cases", "list (nat * bool)", cListInline(stressCases))
+	cf.result("V_redial_stress", "c09_stress_violations stress_cases")
 	cf.result("M_trace", "c09_trace_mismatches cases")
 	cf.result("M_waitub", "c09_waitub_mismatches cases")
 	m.Evaluations = len(cases)
@@ -1154,4 +1228,114 @@ func runC09(cfg *runCfg) error {
 		return err
 	}
 	return m.write(cfg.outDir)
+}
+
+// ---------- stress family: thousands of accept-then-drop cycles with the smallest back-off ----------
+
+type c09StressRes struct {
+	cycles int
+	exited bool // no dial followed an unexpected end of a connection for 5 s: the loop has exited by itself
+	notes  []string
+}
+
+// c09Stress: every dial succeeds, every CONNECT is accepted, every connection is then ended
+// unexpectedly by the peer (EOF, or a malformed packet when proto is set). The client must redial
+// after every such end. Sampling: it looks for interleavings of the reader goroutine and the
+// reconnect loop in which an unexpected end is taken for a graceful one.
+func c09Stress(budget time.Duration, proto bool) c09StressRes {
+	var mu sync.Mutex
+	dials := 0
+	lastDial := time.Now()
+	stop := false
+	dialer := mqtt.DialerFunc(func(ctx context.Context) (*mqtt.BaseClient, error) {
+		mu.Lock()
+		dials++
+		n := dials
+		lastDial = time.Now()
+		stopped := stop
+		mu.Unlock()
+		var conn *memConn
+		conn = newMemConn(n, func(c *memConn, pkt []byte) error {
+			if pkt[0]&0xF0 == 0x10 {
+				c.send(connackOK)
+			}
+			return nil
+		})
+		cli := &mqtt.BaseClient{Transport: conn}
+		cli.ConnState = func(st mqtt.ConnState, err error) {
+			if st == mqtt.StateActive && !stopped {
+				// the moment of the drop is swept over a few microseconds around the moment at which the
+				// reconnect loop reaches its select, cycle after cycle
+				x := uint32(n)*2654435761 + 12345
+				x ^= x << 13
+				x ^= x >> 17
+				x ^= x << 5
+				spin := int(x % uint32(c09StressSpin))
+				drop := func() {
+					for k := 0; k < spin; k++ {
+						c09Sink++
+					}
+					if proto && n%2 == 0 {
+						conn.send([]byte{0xF0, 0x00})
+					} else {
+						conn.finish()
+					}
+				}
+				if n%3 == 0 {
+					drop() // on the goroutine that is inside Connect
+				} else {
+					go drop()
+				}
+			}
+		}
+		return cli, nil
+	})
+	res := c09StressRes{}
+	cli, err := mqtt.NewReconnectClient(dialer, mqtt.WithReconnectWait(time.Microsecond, 10*time.Microsecond))
+	if err != nil {
+		res.notes = append(res.notes, err.Error())
+		return res
+	}
+	ctx, cancel := ctxTimeout(10 * time.Second)
+	if _, err := cli.Connect(ctx, "c09-stress"); err != nil {
+		cancel()
+		res.notes = append(res.notes, "Connect: "+err.Error())
+		res.exited = true
+		return res
+	}
+	cancel() // the caller's context ends after the first success, as with "defer cancel()"
+	end := time.Now().Add(budget)
+	for {
+		time.Sleep(5 * time.Millisecond)
+		mu.Lock()
+		idle := time.Since(lastDial)
+		mu.Unlock()
+		if idle > 5*time.Second {
+			res.exited = true
+			res.notes = append(res.notes, "no dial for 5 s after the last connection ended although Disconnect was not called")
+			break
+		}
+		// the budget is over; a client that has been silent for a while is watched until it dials
+		// again or the 5 s are reached
+		if time.Now().After(end) && idle < 500*time.Millisecond {
+			break
+		}
+	}
+	mu.Lock()
+	stop = true // connections made from now on stay up, so that Disconnect finds a quiet client
+	res.cycles = dials
+	mu.Unlock()
+	dctx, dcancel := ctxTimeout(5 * time.Second)
+	defer dcancel()
+	func() {
+		defer func() {
+			if p := recover(); p != nil {
+				res.notes = append(res.notes, fmt.Sprint("Disconnect panicked: ", p))
+			}
+		}()
+		if err := cli.Disconnect(dctx); err != nil && dctx.Err() != nil {
+			res.notes = append(res.notes, "Disconnect did not return within 5 s")
+		}
+	}()
+	return res
 }
